@@ -1417,13 +1417,17 @@ def _mirror_ident(s):
     return re.sub(r"[A-Za-z0-9]+", lambda m: _MIRROR_SWAP.get(m.group(0), m.group(0)), s)
 
 
-def _mirror_canon(n, mirror):
-    """Canonical form of a syntax tree, optionally reflected: identifier components left/right, l/r, Less/Greater are exchanged;
-    in tuples, tuple patterns and argument lists the components that name a side (`left`, `new_right`, `r_left`, ..) exchange
-    their positions among themselves (`join(l, k, v, r)` -> `join(r', k, v, l')`, `(new_left, found, new_right)` reversed);
-    struct literals and struct patterns are unordered; string literals and macro arguments are ignored."""
+def _mirror_canon(n, mirror, sig=None, flips=None):
+    """Canonical form of a syntax tree, optionally reflected: identifier components left/right, l/r, Less/Greater are exchanged.
+    Positions: in a call of a function of the file whose signature has two side-named parameters (`join(left, key, value, right)`)
+    the arguments in those positions are exchanged (`sig`: function name -> positions, from the signatures, so the names of the
+    caller's locals do not matter); in other argument lists, tuples and tuple patterns the components that name a side
+    (`new_left`, `r_left`, `x.right`, ..) exchange their positions among themselves (`(new_left, found, new_right)` reversed).
+    A tuple or tuple pattern with at least two components that name no side (`(lo, found, hi)`) cannot be reflected by name:
+    it is numbered in `flips` and reversed iff its bit in flips["mask"] is set; the caller tries the masks.
+    Struct literals and struct patterns are unordered; string literals and macro arguments are ignored."""
     if isinstance(n, list):
-        return [_mirror_canon(x, mirror) for x in n]
+        return [_mirror_canon(x, mirror, sig, flips) for x in n]
     if not isinstance(n, dict):
         if isinstance(n, str) and mirror:
             return _mirror_ident(n)
@@ -1443,37 +1447,23 @@ def _mirror_canon(n, mirror):
         elif key == "k":
             out["k"] = v
         else:
-            out[key] = _mirror_canon(v, mirror)
+            out[key] = _mirror_canon(v, mirror, sig, flips)
     if mirror:
         lst_key = {"tuple": "e", "ptuple": "e", "call": "a", "mcall": "a"}.get(k)
         if lst_key and isinstance(n.get(lst_key), list):
             orig = n[lst_key]
             pos = [i for i, x in enumerate(orig) if _SPATIAL.search(json.dumps(strip_ln(x)))]
+            callee = n["f"]["p"].split("::")[-1] if k == "call" and kind(n.get("f")) == "path" and isinstance(n["f"].get("p"), str) else None
+            if callee is not None and sig and len(sig.get(callee, ())) >= 2 and max(sig[callee]) < len(orig):
+                pos = sig[callee]
+            elif k in ("tuple", "ptuple") and len(pos) < 2 and len(orig) - len(pos) >= 2 and flips is not None:
+                bit = flips["count"]
+                flips["count"] += 1
+                pos = list(range(len(orig))) if (flips["mask"] >> bit) & 1 else []
             if len(pos) >= 2:
                 vals = [out[lst_key][i] for i in pos]
                 for i, v in zip(pos, reversed(vals)):
                     out[lst_key][i] = v
-    if k == "block" and isinstance(out.get("s"), list):
-        # runs of consecutive, mutually independent, effect-free `let <name> = <expr>` are unordered
-        stmts, i, res_s = out["s"], 0, []
-
-        def pure_let(st):
-            return kind(st) == "let" and kind(st.get("p")) == "pid" and st.get("e") is not None \
-                and not any(kind(x) in ("call", "mcall", "macro", "closure", "assign", "try") for x in walk(st["e"]))
-        while i < len(stmts):
-            j = i
-            while j < len(stmts) and pure_let(stmts[j]):
-                j += 1
-            run_ = stmts[i:j]
-            names = {st["p"]["n"] for st in run_}
-            if len(run_) >= 2 and not any(kind(x) == "path" and x.get("p") in names for st in run_ for x in walk(st["e"])):
-                run_ = sorted(run_, key=lambda x: (json.dumps(_drop_ln(x["e"]), sort_keys=True), json.dumps(_drop_ln(x), sort_keys=True)))
-            res_s.extend(run_)
-            if j == i:
-                res_s.append(stmts[i])
-                j = i + 1
-            i = j
-        out["s"] = res_s
     if k in ("struct", "pstruct") and isinstance(out.get("f"), list):
         out["f"] = sorted(out["f"], key=lambda x: json.dumps(_drop_ln(x), sort_keys=True))
     return out
@@ -1483,41 +1473,62 @@ def _drop_ln(n):
     if isinstance(n, list):
         return [_drop_ln(x) for x in n]
     if isinstance(n, dict):
-        return {k: _drop_ln(v) for k, v in n.items() if k != "_ln"}
+        return {k: _drop_ln(v) for k, v in n.items() if not k.startswith("_")}
     return n
 
 
 def _mirror_alpha(n):
     """Names bound inside the compared region (identifier patterns) are replaced by the number of their first binding, so a
-    local renamed on one side only is not a deviation."""
+    local renamed on one side only is not a deviation. Runs of consecutive, mutually independent, call-free `let <name> = <expr>`
+    are unordered: a run is sorted by its expressions *after* the names bound so far have been replaced (so the order does not
+    depend on how the locals are called), and its names are numbered in that order."""
     names = {}
-
-    def collect(x):
-        if isinstance(x, dict):
-            if x.get("k") == "pid" and isinstance(x.get("n"), str):
-                names.setdefault(x["n"], "$%d" % len(names))
-            for v in x.values():
-                collect(v)
-        elif isinstance(x, list):
-            for v in x:
-                collect(v)
 
     def rename(x):
         if isinstance(x, dict):
             out = {}
             for key, v in x.items():
                 if key == "n" and x.get("k") == "pid" and v in names:
-                    out[key] = names[v]
+                    out[key], out["_o"] = names[v], v
                 elif key == "p" and x.get("k") == "path" and v in names:
-                    out[key] = names[v]
+                    out[key], out["_o"] = names[v], v
                 else:
                     out[key] = rename(v)
             return out
         if isinstance(x, list):
             return [rename(v) for v in x]
         return x
-    collect(n)
-    return rename(n)
+
+    def pure_let(st):
+        return kind(st) == "let" and kind(st.get("p")) == "pid" and st.get("e") is not None \
+            and not any(kind(y) in ("call", "mcall", "macro", "closure", "assign", "try") for y in walk(st["e"]))
+
+    def bind(x):
+        """numbers the names in traversal order; returns x with the unordered runs in canonical order"""
+        if isinstance(x, list):
+            return [bind(v) for v in x]
+        if not isinstance(x, dict):
+            return x
+        if x.get("k") == "pid" and isinstance(x.get("n"), str):
+            names.setdefault(x["n"], "$%d" % len(names))
+        if x.get("k") == "block" and isinstance(x.get("s"), list):
+            stmts, i, res_s = x["s"], 0, []
+            while i < len(stmts):
+                j = i
+                while j < len(stmts) and pure_let(stmts[j]):
+                    j += 1
+                run_ = stmts[i:j]
+                bound = {st["p"]["n"] for st in run_}
+                if len(run_) >= 2 and not any(kind(y) == "path" and y.get("p") in bound for st in run_ for y in walk(st["e"])):
+                    run_ = sorted(run_, key=lambda st: json.dumps(_drop_ln(rename(st["e"])), sort_keys=True))
+                if j == i:
+                    run_, j = [stmts[i]], i + 1
+                res_s.extend(bind(st) for st in run_)
+                i = j
+            out = {key: (res_s if key == "s" else bind(v)) for key, v in x.items()}
+            return out
+        return {key: bind(v) for key, v in x.items()}
+    return rename(bind(n))
 
 
 def _mirror_diff(a, b, ln=None):
@@ -1527,10 +1538,13 @@ def _mirror_diff(a, b, ln=None):
         if a.get("k") != b.get("k"):
             return ln, "`%s` node where the reflection of its twin has `%s`" % (b.get("k"), a.get("k"))
         for key in sorted(set(a) | set(b)):
-            if key == "_ln":
+            if key.startswith("_"):
                 continue
             if key not in a or key not in b:
                 return ln, "`%s` present on one side only" % key
+            if key in ("n", "p") and a[key] != b[key] and ("_o" in a or "_o" in b):
+                # locals are compared by the number of their first binding; quote the names as written
+                return ln, "`%s` where the reflection of the twin has `%s`" % (b.get("_o", b[key]), a.get("_o", a[key]))
             d = _mirror_diff(a[key], b[key], ln)
             if d:
                 return d
@@ -1595,9 +1609,25 @@ def rule_mirror(trees):
         if "Less" not in arms or "Greater" not in arms:
             raise AnchorError("S-MIRROR: the key comparison of %s has no Less/Greater arms" % name)
         pairs.append((name, "Less/Greater arm", arms["Less"]["b"], arms["Greater"]["b"], arms["Greater"]["ln"]))
+    # positions of side-named parameters, from the signatures of the file's own functions
+    sig = {}
+    for fname, (qn, fn) in fns.items():
+        ps = [i for i, prm in enumerate(fn.get("params", [])) if _SPATIAL.search(json.dumps(strip_ln(prm.get("p", prm)) if isinstance(prm, dict) else prm))]
+        if len(ps) >= 2:
+            sig[fname] = ps
+    if "join" not in sig:
+        raise AnchorError("S-MIRROR: join has no two side-named parameters")
     for name, what, a, b, ln in pairs:
-        ca, cb = _mirror_alpha(_mirror_canon(a, True)), _mirror_alpha(_mirror_canon(b, False))
-        d = _mirror_diff(ca, cb, ln)
+        cb = _mirror_alpha(_mirror_canon(b, False))
+        flips = {"mask": 0, "count": 0}
+        d = _mirror_diff(_mirror_alpha(_mirror_canon(a, True, sig, flips)), cb, ln)
+        nflip = flips["count"]
+        if d is not None and 0 < nflip <= 10:
+            # tuples whose components name no side: a reflection exists if some choice of reversed ones matches
+            for mask in range(1, 1 << nflip):
+                if _mirror_diff(_mirror_alpha(_mirror_canon(a, True, sig, {"mask": mask, "count": 0})), cb, ln) is None:
+                    d = None
+                    break
         if d is None:
             res.ok()
         else:
